@@ -3,6 +3,7 @@ import Upf.Proofs.AgentWorld
 import Upf.Proofs.TeidRun
 import Upf.Proofs.BessAddDel
 import Upf.Proofs.BessEnd
+import Upf.Proofs.TeidWorld
 /-!
 # C05 — Ending a session reclaims everything it ever acquired (BESS part)
 
@@ -94,5 +95,40 @@ theorem reported_unknown_session_leaves_no_key (cfg : Cfg) (w : World) (a seid :
 example : (match (releaseRes (some { free := [6], inv := [(77, 5)] }) { offset := 3, used := fun x => x == 2 } 77 [{ chooseTeid := true, tunnelTEID := 3 }]) with
     | (some pl, g) => (pl.free, pl.inv, g.used 2)
     | _ => ([], [], true)) = ([6, 5], [], false) := by decide
+
+/-! ### along every history (BESS agent model, any number of associations; `Agent.inv_teid_run`) -/
+
+/-- **no TEID and no table entry is ever leaked**: from start-up on, after every request of every history in the envelope
+(establishments accepted or refused at any point, deletions, reports "context not found", association endings), a TEID is in use
+in the allocator only if a stored session's PDR holds it, and a key is present in a lookup table only if a stored session has it -/
+theorem nothing_leaks_along_every_history (cfg : Cfg) (pool : Option Pool.P) (g : Teid.G) (hg : g.offset < M)
+    (hfresh : ∀ x, g.used x = false) (evs : List Ev) (henv : EnvOK cfg { pool := pool, teid := g } evs) :
+    let w := evs.foldl (stepEv cfg) { pool := pool, teid := g }
+    (∀ x, w.teid.used x = true → x + 1 ∈ chosen w) ∧
+    (∀ X k v, (w.tables.tab X).get k = some v → ∃ s ∈ allSessions w, k ∈ s.keysOf cfg X) := by
+  have h := inv_teid_run cfg evs { pool := pool, teid := g } (inv_start cfg pool g)
+    ⟨hg, by simp [chosen, allSessions, flat, Held, hfresh]⟩ henv
+  refine ⟨h.2.held.2.2, fun X k v hv => ?_⟩
+  obtain ⟨s, hs, hl⟩ := (h.1.img X k v).mp hv
+  exact ⟨s, hs, key_of_lastVal hl⟩
+
+/-- … so once the last session has ended — however each of them ended — no TEID is in use and the four lookup tables are empty -/
+theorem all_ended_all_returned (cfg : Cfg) (pool : Option Pool.P) (g : Teid.G) (hg : g.offset < M)
+    (hfresh : ∀ x, g.used x = false) (evs : List Ev) (henv : EnvOK cfg { pool := pool, teid := g } evs)
+    (hnone : allSessions (evs.foldl (stepEv cfg) { pool := pool, teid := g }) = []) :
+    (∀ x, (evs.foldl (stepEv cfg) { pool := pool, teid := g }).teid.used x = false) ∧
+    (∀ X k, ((evs.foldl (stepEv cfg) { pool := pool, teid := g }).tables.tab X).get k = none) := by
+  have h := nothing_leaks_along_every_history cfg pool g hg hfresh evs henv
+  refine ⟨fun x => ?_, fun X k => ?_⟩
+  · cases hu : (evs.foldl (stepEv cfg) { pool := pool, teid := g }).teid.used x with
+    | false => rfl
+    | true =>
+      have := h.1 x hu
+      simp [chosen, hnone] at this
+  · cases hv : ((evs.foldl (stepEv cfg) { pool := pool, teid := g }).tables.tab X).get k with
+    | none => rfl
+    | some v =>
+      obtain ⟨s, hs, _⟩ := h.2 X k v hv
+      rw [hnone] at hs; cases hs
 
 end Props.C05
